@@ -66,9 +66,11 @@ def classify(got, exp, inp, pykey, ascending):
     return 'tie-order'
 
 
-def mk_index(spec, labels, name='iname'):
-    """spec: 'Index' | 'IndexGO' | 'IndexDate' | 'IH' | 'IHGO'"""
+def mk_index(spec, labels, name='iname', like=None):
+    """spec: 'Index' | 'IndexGO' | 'IndexDate' | 'IH' | 'IHGO';  like: labels fixing the dtype of an empty index"""
     import static_frame as sf
+    if not labels and like and spec in ('Index', 'IndexGO'):
+        return getattr(sf, spec)((), name=name, dtype=np.array(like).dtype)
     if spec in ('IH', 'IHGO'):
         cls = sf.IndexHierarchy if spec == 'IH' else sf.IndexHierarchyGO
         return cls.from_labels(labels, name=name, depth_reference=len(labels[0]) if labels else 2)
@@ -142,7 +144,7 @@ def check_index_case(p):
     if hier and not tree_form(labels):
         return None, False
     try:
-        idx = mk_index(spec, labels)
+        idx = mk_index(spec, labels, like=universe)
     except Exception as e:
         if type(e).__name__ == 'ErrorInitIndex' and hier:
             return None, False
@@ -251,7 +253,7 @@ def check_series_index_case(p):
     labels = [universe[i] for i in p['order']]
     if hier and not tree_form(labels):
         return None, False
-    idx = mk_index(spec, labels)
+    idx = mk_index(spec, labels, like=universe)
     vals = np.array([10.5 * (i + 1) for i in p['order']])            # value identifies the label it belongs to
     s = sf.Series(vals, index=idx, name='sname')
     fn, pyk = (hier_keys() if hier else index_keys())[p['key']]
